@@ -37,8 +37,20 @@ def _case(draw, kind, steps):
         "p": atoms.positions(10.0),
         "stack": st.one_of(st.none(), st.tuples(st.integers(1, 4), st.integers(0, 3)))})
     R0 = spec.get("R", np.eye(3).tolist())
+    dirs = atoms.directions_for(R0)
+    if kind == "mesh":
+        # also query along (vertex - centroid) in the mesh frame, in particular
+        # towards vertex 0, which may be an interior vertex no triangle uses;
+        # the op applies the current rotation ("local": True)
+        V = np.array(spec["vertices"], dtype=float)
+        idx = st.sampled_from([0, 0, len(V) - 1, len(V) // 2])
+        local = idx.map(lambda i: (V[i] - V.mean(axis=0)).tolist()).filter(
+            lambda v: float(np.linalg.norm(v)) > 1e-9)
+        q_local = st.fixed_dictionaries({"op": st.just("support"), "d": local, "local": st.just(True)})
+    else:
+        q_local = st.fixed_dictionaries({"op": st.just("support"), "d": dirs})
     q = st.one_of(
-        st.fixed_dictionaries({"op": st.just("support"), "d": atoms.directions_for(R0)}),
+        st.fixed_dictionaries({"op": st.just("support"), "d": dirs}), q_local,
         st.just({"op": "aabb"}), st.just({"op": "center"}), st.just({"op": "first_vertex"}),
         st.just({"op": "gjk"}), st.just({"op": "intersection"}))
     ops = draw(st.lists(st.one_of(pose, q, q), min_size=1, max_size=steps))
@@ -102,6 +114,8 @@ def check_case(case, cell):
             return a, b
         if name == "support":
             d = np.ascontiguousarray(np.array(op["d"], dtype=float))
+            if op.get("local"):
+                d = np.ascontiguousarray(np.array(cur["R"], dtype=float).dot(d))
             a, b = both(lambda o: o.support_function(d.copy()))
         elif name == "aabb":
             a, b = both(lambda o: o.aabb())
